@@ -205,19 +205,19 @@ def sync (s : State) (t : Nat) (fn act res : String) : Except String State := do
     -- the fetch has read generation g, which is the current one (the lock is still held)
     let s ← checkChan s k.cond g "sig" res
     stepM s (.unlock t) act
-  | .bClose c old _, "Close(old)" => do
+  | .bClose c old _, "Close($)" => do
     let s ← checkChan s c old "ch" res                     -- the channel closed is the superseded generation
     stepM s (.close t) act
   -- blocking selects
   | .eWait _ _, "Select:Recv(ctx.Done())" | .dWaitE _, "Select:Recv(ctx.Done())" | .dWaitT _, "Select:Recv(ctx.Done())" => do
     stepM (← ended s t) (.selCtx t) act
-  | .eWait _ g, "Select:Recv(signal)" => do
+  | .eWait _ g, "Select:Recv($)" => do
     let s ← checkChan s .deqSig g "ch" res                 -- the channel received from is the generation fetched under the lock
     stepM s (.selSig t) act
-  | .dWaitE g, "Select:Recv(signal)" | .dWaitT g, "Select:Recv(signal)" => do
+  | .dWaitE g, "Select:Recv($)" | .dWaitT g, "Select:Recv($)" => do
     let s ← checkChan s .enqSig g "ch" res
     stepM s (.selSig t) act
-  | .dWaitT _, "Select:Recv(timer.C)" =>
+  | .dWaitT _, "Select:Recv($.C)" =>
     match s.m.timer t with
     | some ⟨_, true⟩ => stepM s (.selTimer t) act          -- a tick is already in the channel (stale or not)
     | some ⟨some w, false⟩ => do
@@ -230,7 +230,7 @@ def sync (s : State) (t : Nat) (fn act res : String) : Except String State := do
     match s.m.timer t with
     | none => stepM s (.arm t) act
     | some _ => .error s!"thread {t} makes a new timer, the model's call already has one (Reset expected)"
-  | .dArm _ _, "TimerReset(timer)" =>
+  | .dArm _ _, "TimerReset($)" =>
     match s.m.timer t with
     | none => .error s!"thread {t} resets a timer, the model's call has none (NewTimer expected)"
     | some ⟨some w, _⟩ =>
@@ -246,7 +246,7 @@ def sync (s : State) (t : Nat) (fn act res : String) : Except String State := do
     checkQueue s res
     stepM s (.unlock t) act
   -- the deferred timer.Stop() of Dequeue
-  | .ret _, "TimerStop(timer)" =>
+  | .ret _, "TimerStop($)" =>
     if (s.m.timer t).isNone then .error s!"thread {t} stops a timer, the model's call has none"
     else if s.stopSeen.contains t then .error s!"thread {t} stops its timer twice"
     else pure { s with stopSeen := t :: s.stopSeen }
